@@ -447,3 +447,41 @@ def guard_on_cursor(ctx, fx, fid, rule="R-GUARD.cursor"):
                       (fid.rsplit("::", 1)[-1], sorted(x.rsplit("::", 1)[-1] for x in res_fields)[:4],
                        sorted(x.rsplit("::", 1)[-1] for x in guard_fields)[:4]), fn.file, fn.line)
     return 1
+
+
+# ------------------------------------------------------------------ R-RANGE.dep
+def end_from_start(ctx, fx, fid, rule="R-RANGE.dep"):
+    """a carve helper that returns (start, end) computes the end from the start it hands out: the second component of
+    every returned pair derives (through plain statements and checked arithmetic) from the first. An end computed from
+    the unaligned cursor does not reserve the alignment padding: the next block starts inside this one."""
+    rec = fx.raw(fid)
+    if rec is None:
+        raise Exception("%s: %s not found" % (rule, fid))
+    fn = Fn(rec)
+    ctx.analysed_fns.add(fid)
+    n = 0
+    for (b, i), st in fn.iter_locs():
+        if st[0] != "a" or st[2][0] != "agg" or st[2][1] != "tuple" or len(st[2][2]) != 2:
+            continue
+        s_l, e_l = op_local(st[2][2][0]), op_local(st[2][2][1])
+        if s_l is None or e_l is None or fn.ty(s_l) != "usize" or fn.ty(e_l) != "usize":
+            continue
+        if 0 not in fn.forward_locals([st[1][0]]) and st[1] != [0]:
+            continue
+        n += 1
+        # start's own value chain (copies only) vs everything the end is computed from
+        scls = {s_l}
+        for _ in range(4):
+            for l in list(scls):
+                for dl, kind, pl in fn.defs(l):
+                    if kind == "assign" and pl[2][0] == "use" and op_place(pl[2][1]) and len(op_place(pl[2][1])) == 1:
+                        scls.add(op_place(pl[2][1])[0])
+        eslice = fn.backslice([e_l], max_nodes=200)[0]
+        ok = bool(scls & eslice)
+        ctx.obligation(rule, fid, "end derives from start@%s" % st[3], ok, sample={"fn": fid, "line": st[3], "end_from_start": ok})
+        if not ok:
+            ctx.violation(rule, fid, "end of the carved range not computed from its start",
+                          "%s returns a (start, end) pair whose end (line %s) does not derive from the start it hands out: "
+                          "padding inserted before the start is not reserved, so consecutive blocks overlap" %
+                          (fid.rsplit("::", 1)[-1], st[3]), fn.file, st[3])
+    return n
